@@ -133,10 +133,20 @@ def run(ctx):
         ctx.reseed_global(idx)
         grouped = rng.random() < 0.12
         big = (idx % 23 == 5)
+        staged = (idx % 9 == 4) and not big
         if big:
             grouped = False
             h = model.gen_big_history(rng)
             ctx.count("c01.big_segment_cases")
+        elif staged:
+            # long flat multi-block posting lists, a few strong documents early and late, deletions: limited
+            # searches really skip blocks here, and whatever they skip to must still be a live matching document
+            grouped = False
+            h = model.gen_staged_history(rng)
+            if not h["deletes"]:
+                alld = [d["id"] for c_ in h["commits"] for d in c_]
+                h["deletes"] = rng.sample(alld, min(len(alld) // 4, 25))
+            ctx.count("c01.staged_cases")
         else:
             h = model.gen_group_history(rng) if grouped else model.gen_history(rng, ndocs=(1, 45), boosts=rng.random() < 0.3, boolean=True)
         wname, wobj = gen_weighting(rng)
@@ -166,6 +176,9 @@ def run(ctx):
                             q, pre = query.Or([q, t]), pre | model.expected_keys(t, built.live)
                         ctx.count("c01.nested_queries")
                         exp = check_query(ctx, rng, built, s, q, wb, wname, exp=pre)
+                    elif staged and rng.random() < 0.7:
+                        q = model.gen_skip_stress(rng)
+                        exp = check_query(ctx, rng, built, s, q, wb, wname)
                     elif big and rng.random() < 0.6:
                         from whoosh import query
                         q = query.Or([model.gen_leaf(rng, fuzzy=False) for _ in range(rng.randint(3, 5))])
